@@ -28,7 +28,7 @@ From V Require Import Model.ZMap Model.Quorum Model.Voting Model.VotingRef Model
   Proofs.NoFail Proofs.AgreementU Proofs.FameInv Proofs.FamousSet Proofs.DecidedFlag Proofs.RoundReceived
   Proofs.BlockAgree Proofs.AgreementWitness Proofs.WindowWitness
   Model.Window Proofs.WindowStable Proofs.GapWindow Proofs.RoundAgreeD Proofs.ShrinkWitness
-  Model.VotingRefD Proofs.VotingProofsD Proofs.RoundOrder Proofs.CInvRunD Proofs.ViewOk Proofs.ViewOkD Proofs.SameHistoryD Proofs.AgreementD Proofs.FameInvD Proofs.LateWitnessD Proofs.FamousSetD Proofs.DecidedFlagD Proofs.RoundReceived Proofs.RoundReceivedD Proofs.Undetermined Proofs.UndeterminedD.
+  Model.VotingRefD Proofs.VotingProofsD Proofs.RoundOrder Proofs.CInvRunD Proofs.ViewOk Proofs.ViewOkD Proofs.SameHistoryD Proofs.AgreementD Proofs.FameInvD Proofs.LateWitnessD Proofs.FamousSetD Proofs.DecidedFlagD Proofs.RoundReceived Proofs.RoundReceivedD Proofs.Undetermined Proofs.UndeterminedD Proofs.BlockAgreeD.
 Import ListNotations.
 Open Scope Z_scope.
 
@@ -420,10 +420,11 @@ Proof. exact ws_facts. Qed.
    same answer for the rounds both have ([tables_agree]) assign the same round and the same witness flag to every
    event they share, and strongly-see (with any set) between shared events has the same value.  In both fork
    witnesses above the tables ARE equal and the rounds differ: there the distance bound is violated on both
-   nodes (C01_dynamic_fork_violates_bound).  The step from here to the blocks (fame, round-received, frames with
-   per-round sets, and the induction that discharges [tables_agree]) is NOT proved; before fix 05eda0b it was
-   false (C01_fame_threshold_regression below: fame was decided with the super-majority of the NEXT round's set).
-   C01_agreement stays a static-membership theorem. *)
+   nodes (C01_dynamic_fork_violates_bound).  The step from here to the blocks (fame, round-received, the events
+   of the frames, and the induction that discharges [tables_agree]) is proved further down: C01_tables_agree_dynamic and
+   C01_agreement_dynamic_gap.  Before fix 05eda0b it was false (C01_fame_threshold_regression below: fame was decided with
+   the super-majority of the NEXT round's set).  C01_agreement (which also compares timestamp, frame hash and peers)
+   stays a static-membership theorem. *)
 Theorem C01_rounds_agree_dynamic : forall all self1 self2 genesis1 genesis2 oracle1 oracle2 ops1 ops2 x e1 e2,
   ids_determine all -> self1 <> -1 -> self2 <> -1 ->
   Forall (hop_ok all) ops1 -> Forall (hop_ok all) ops2 ->
@@ -477,8 +478,8 @@ Proof. vm_compute. split; reflexivity. Qed.
    (2) These hypotheses hold in every state of a node that respects the distance bound (Proofs/ViewOkD.v,
        SameHistoryD.v over the division invariant cinvD), so: two nodes -- no [no_accept], any selfs, schedules,
        genesis sets -- that respect the distance bound and whose tables agree on the rounds both have never decide the
-       fame of a witness differently (C01_fame_agreement_dynamic).  Still open: discharging [tables_agree] by induction
-       over the blocks (round-received, frames, blocks with per-round sets). *)
+       fame of a witness differently (C01_fame_agreement_dynamic).  [tables_agree] itself is discharged by induction
+       over the two runs in C01_tables_agree_dynamic (same genesis set). *)
 Theorem C01_fame_agreement_partial_dynamic : forall n st1 st2 x r G v1 v2,
   (forall j, In j (zrange (r + 1) (last_round st1)) -> round_witnesses st1 j <> None) ->
   (forall j, In j (zrange (r + 1) (last_round st2)) -> round_witnesses st2 j <> None) ->
@@ -684,6 +685,65 @@ Proof.
          (uD_u _ _ (hrun_uinvD s g o all ops Hs ID H B F) x Hx Hr)).
 Qed.
 Print Assumptions C01_round_received_complete_dynamic.
+
+(* AGREEMENT UNDER DYNAMIC MEMBERSHIP (no [no_accept], NO premise on the tables).  Two nodes started from the same
+   genesis set -- any selfs, any oracles, any operation sequences over one fork-free universe of events, joins and
+   leaves accepted at will -- that both respect the distance bound ([gap_runb]: every step leaves last_round at most 5
+   above the next round to decide; locally checkable; what a commit gate would enforce) and have not failed:
+   (1) their validator-set tables give the same set for every round both have (C01_tables_agree_dynamic).  Proved by
+       induction on the total number of steps of the two runs (Proofs/BlockAgreeD.v [ta_step]): a step of node 1 adds a
+       table entry only by delivering a block of some round R with an accepted internal transaction; with the tables of
+       the shorter runs agreeing, fame / famous witnesses / round-received agree (the theorems above), so the events
+       of R's frame and their Lamport order agree with those of node 2 whenever node 2 has processed R, so both blocks
+       carry the same internal transactions and write the same entry at R + 6; when node 2 has not processed R, the
+       distance bound says it has no round R + 6 yet;
+   (2) hence every premise [tables_agree] above is discharged: rounds, witness flags, fame and round-received of shared
+       events agree (C01_consensus_values_agree_dynamic);
+   (3) the k-th delivered blocks have the same index, round-received, transactions and internal transactions
+       (C01_agreement_dynamic_gap): the ledgers of the two nodes -- and the sequences of membership changes -- are
+       prefix-comparable.
+   NOT compared (unlike the static C01_agreement): the block timestamp, the frame hash (roots, per-frame peer-set
+   history) and the block's peers field.  Without the distance bound the statement is false: C01_agreement_dynamic_refuted,
+   C01_dynamic_fork_by_scheduling (open known finding C01-window-fork).  With the pre-fix fame quorum it was false even under the bound:
+   C01_fame_threshold_regression. *)
+Theorem C01_tables_agree_dynamic : forall all genesis self1 self2 oracle1 oracle2 ops1 ops2,
+  ids_determine all -> sigkeys_determine all -> fork_free all -> self1 <> -1 -> self2 <> -1 ->
+  Forall (hop_ok all) ops1 -> Forall (hop_ok all) ops2 ->
+  gap_runb (init_hg self1 genesis oracle1) ops1 = true -> gap_runb (init_hg self2 genesis oracle2) ops2 = true ->
+  failed (hrun (init_hg self1 genesis oracle1) ops1) = false -> failed (hrun (init_hg self2 genesis oracle2) ops2) = false ->
+  tables_agree (hrun (init_hg self1 genesis oracle1) ops1) (hrun (init_hg self2 genesis oracle2) ops2).
+Proof. exact (fun all g s1 s2 o1 o2 ops1 ops2 ID SK FF => gap_tables_agree all g ID SK FF s1 s2 o1 o2 ops1 ops2). Qed.
+Print Assumptions C01_tables_agree_dynamic.
+
+Theorem C01_consensus_values_agree_dynamic : forall all genesis self1 self2 oracle1 oracle2 ops1 ops2,
+  ids_determine all -> sigkeys_determine all -> fork_free all -> self1 <> -1 -> self2 <> -1 ->
+  Forall (hop_ok all) ops1 -> Forall (hop_ok all) ops2 ->
+  gap_runb (init_hg self1 genesis oracle1) ops1 = true -> gap_runb (init_hg self2 genesis oracle2) ops2 = true ->
+  let st1 := hrun (init_hg self1 genesis oracle1) ops1 in
+  let st2 := hrun (init_hg self2 genesis oracle2) ops2 in
+  failed st1 = false -> failed st2 = false ->
+  (forall x e1 e2, get_event st1 x = Some e1 -> get_event st2 x = Some e2 ->
+     ev_round e1 = ev_round e2 /\ ev_round e1 <> None /\
+     (forall i1 i2, ev_rr e1 = Some i1 -> ev_rr e2 = Some i2 -> i1 = i2)) /\
+  (forall x r v1 v2, fame_of st1 x r = Some (Some v1) -> fame_of st2 x r = Some (Some v2) -> v1 = v2) /\
+  (forall q, get_round st1 q <> None -> get_round st2 q <> None -> get_peerset st1 q = get_peerset st2 q).
+Proof. exact gap_consensus_agree. Qed.
+Print Assumptions C01_consensus_values_agree_dynamic.
+
+Theorem C01_agreement_dynamic_gap : forall all genesis self1 self2 oracle1 oracle2 ops1 ops2 k d1 d2,
+  ids_determine all -> sigkeys_determine all -> fork_free all -> self1 <> -1 -> self2 <> -1 ->
+  Forall (hop_ok all) ops1 -> Forall (hop_ok all) ops2 ->
+  gap_runb (init_hg self1 genesis oracle1) ops1 = true -> gap_runb (init_hg self2 genesis oracle2) ops2 = true ->
+  let st1 := hrun (init_hg self1 genesis oracle1) ops1 in
+  let st2 := hrun (init_hg self2 genesis oracle2) ops2 in
+  failed st1 = false -> failed st2 = false ->
+  nth_error (delivered st1) k = Some d1 -> nth_error (delivered st2) k = Some d2 ->
+  b_index d1 = b_index d2 /\ b_rr d1 = b_rr d2 /\ b_txs d1 = b_txs d2 /\ b_itxs d1 = b_itxs d2.
+Proof.
+  exact (fun all g s1 s2 o1 o2 ops1 ops2 k d1 d2 ID SK FF S1 S2 H1 H2 B1 B2 F1 F2 =>
+           blocks_agree_gap all g ID SK FF s1 s2 o1 o2 ops1 ops2 S1 S2 H1 H2 B1 B2 F1 F2 k d1 d2).
+Qed.
+Print Assumptions C01_agreement_dynamic_gap.
 
 (* REGRESSION WITNESS for fix 05eda0b (known finding C01-fame-threshold-after-shrink): A SECOND FORK UNDER
    DYNAMIC MEMBERSHIP, INDEPENDENT OF THE WINDOW, in the code before the fix.  DecideFame decided at a round-j witness
